@@ -304,6 +304,7 @@ def pipeline(ctx):
     carried = calcorr.retry_in_carrier(cases, results, [c[6] for c in cases])
     mlines = []
     unrecognized = set()
+    skipped = ctx.extra.setdefault('skipped_by_reason', {})
     for expr, R, fam, par, cul, dem, _car in cases:
         if fam == 'monthday':
             mlines.append('du.md\t%s\t%d\t%d' % (ref_fields(R), par[0], par[1]))
@@ -317,10 +318,17 @@ def pipeline(ctx):
         ent = calcorr.whole_entity(res, expr) or carried.get(ci)
         got = ent[4] if ent else None
         if fam == 'weekday-abbr' and got is None:
-            continue            # an abbreviation the extractor does not accept on its own: nothing is claimed
+            # an abbreviation the extractor does not accept on its own: nothing is claimed; counted (`skipped_by_reason`)
+            skipped['weekday abbreviation not recognised on its own: %s' % cul] = skipped.get(
+                'weekday abbreviation not recognised on its own: %s' % cul, 0) + 1
+            continue
         if got is None and not dem:
             unrecognized.add('%s: %s' % (cul, expr))
-            continue            # text known from parser-level Specs only: the extractor is not bound to find it on its own
+            # text known from parser-level Specs only (contract `level: parser`): the extractor is not bound to find it on
+            # its own; counted
+            skipped['not recognised, contract level parser (not demanded): %s' % cul] = skipped.get(
+                'not recognised, contract level parser (not demanded): %s' % cul, 0) + 1
+            continue
         want = calcorr.c09_oracle('monthday' if fam == 'monthday' else 'weekday', par, R)
         mv = model_values(ans)
         if got is not None and len(got) == 2:
